@@ -1504,6 +1504,44 @@ func ruleDispatchConserves(r *Run, rule string) {
 							elseBlock = is.Else
 						}
 						key := fmt.Sprintf("%s.%s:dispatch#%d(%s)", v.rel, declName(fd), n, src)
+						// the unit keeps a list of the instructions it held back this cycle (consulted so that a
+						// younger instruction is not dispatched past an older one it depends on): every
+						// held-back instruction is appended to it
+						if recvT := recvNamed(info, fd); recvT != nil {
+							if st := structOf(recvT); st != nil {
+								for i := 0; i < st.NumFields(); i++ {
+									fv := st.Field(i)
+									sl, ok := fv.Type().(*types.Slice)
+									if !ok || !types.Identical(sl.Elem(), inst.Type()) {
+										continue
+									}
+									recorded := false
+									if elseBlock != nil {
+										ast.Inspect(elseBlock, func(k ast.Node) bool {
+											as, ok := k.(*ast.AssignStmt)
+											if !ok || len(as.Lhs) != 1 || len(as.Rhs) != 1 {
+												return true
+											}
+											ls, ok := ast.Unparen(as.Lhs[0]).(*ast.SelectorExpr)
+											if !ok || info.Selections[ls] == nil || info.Selections[ls].Obj() != fv {
+												return true
+											}
+											if call, ok := as.Rhs[0].(*ast.CallExpr); ok {
+												if fid, ok := call.Fun.(*ast.Ident); ok && fid.Name == "append" && len(call.Args) == 2 {
+													if a0, ok := ast.Unparen(call.Args[0]).(*ast.SelectorExpr); ok && info.Selections[a0] != nil && info.Selections[a0].Obj() == fv {
+														if a1, ok := ast.Unparen(call.Args[1]).(*ast.Ident); ok && info.Uses[a1] == inst {
+															recorded = true
+														}
+													}
+												}
+											}
+											return true
+										})
+									}
+									r.check(recorded, rule, key+":held-back-recorded("+fv.Name()+")", is.Pos(), "an instruction that is not dispatched is appended to the unit's list of held-back instructions %s", fv.Name())
+								}
+							}
+						}
 						switch src {
 						case "bus":
 							r.check(queueCall(elseBlock, "Push", inst, nil) && !queueCall(is.Body, "Push", inst, nil), rule, key, is.Pos(), "an instruction taken from the input bus that is not dispatched is put in the pending queue (and a dispatched one is not)")
@@ -1618,4 +1656,297 @@ func ruleOneLockPerLine(r *Run, rule string) {
 			}
 		}
 	}
+}
+
+// ruleExitFlagCleared (R09.7 / R03.25 / R07.26): a drain loop of the CPU that ends on a local
+// flag (`done := true` at the top of the body, `if done { break }` at its end) must clear the
+// flag wherever it finds a component busy: every `if` of the body that tests the idleness of
+// a bus, coroutine or unit clears the flag on its busy side. A test that no longer clears the
+// flag ends the drain while that component still holds older work.
+func ruleExitFlagCleared(r *Run, rule string) {
+	w := r.W
+	for _, v := range variants(w) {
+		if v.pkg == nil || !v.pipelined() || v.cpu == nil {
+			continue
+		}
+		info := v.info
+		for _, f := range v.pkg.Syntax {
+			for _, d := range f.Decls {
+				fd, ok := d.(*ast.FuncDecl)
+				if !ok || fd.Body == nil || fd.Recv == nil || len(fd.Recv.List) != 1 || namedOf(info.TypeOf(fd.Recv.List[0].Type)) != v.cpu {
+					continue
+				}
+				nLoop := 0
+				ast.Inspect(fd.Body, func(m ast.Node) bool {
+					fs, ok := m.(*ast.ForStmt)
+					if !ok || fs.Cond != nil {
+						return true
+					}
+					// flag := true among the top statements; if flag { break } among them too
+					var flag types.Object
+					for _, st := range fs.Body.List {
+						if as, ok := st.(*ast.AssignStmt); ok && as.Tok == token.DEFINE && len(as.Lhs) == 1 && len(as.Rhs) == 1 {
+							if tv, ok := info.Types[as.Rhs[0]]; ok && tv.Value != nil && tv.Value.String() == "true" {
+								if id, ok := as.Lhs[0].(*ast.Ident); ok {
+									flag = info.Defs[id]
+								}
+							}
+						}
+					}
+					if flag == nil {
+						return true
+					}
+					exits := false
+					for _, st := range fs.Body.List {
+						if is, ok := st.(*ast.IfStmt); ok {
+							if id, ok := ast.Unparen(is.Cond).(*ast.Ident); ok && info.Uses[id] == flag && len(is.Body.List) == 1 {
+								if b, ok := is.Body.List[0].(*ast.BranchStmt); ok && b.Tok == token.BREAK {
+									exits = true
+								}
+							}
+						}
+					}
+					if !exits {
+						return true
+					}
+					nLoop++
+					clears := func(list []ast.Stmt) bool {
+						for _, st := range list {
+							if as, ok := st.(*ast.AssignStmt); ok && len(as.Lhs) == 1 && len(as.Rhs) == 1 {
+								if id, ok := as.Lhs[0].(*ast.Ident); ok && info.Uses[id] == flag {
+									if tv, ok := info.Types[as.Rhs[0]]; ok && tv.Value != nil && tv.Value.String() == "false" {
+										return true
+									}
+								}
+							}
+						}
+						return false
+					}
+					// polarity of a condition made of idleness tests
+					var polarity func(e ast.Expr) string // "busy" (all disjuncts negated tests), "idle" (all conjuncts positive tests), ""
+					polarity = func(e ast.Expr) string {
+						e = ast.Unparen(e)
+						switch x := e.(type) {
+						case *ast.BinaryExpr:
+							l, rr := polarity(x.X), polarity(x.Y)
+							// a disjunction with a "component busy" disjunct holds whenever the component is busy;
+							// a conjunction with a "component idle" conjunct fails whenever it is busy
+							if x.Op == token.LOR && (l == "busy" || rr == "busy") && l != "idle" && rr != "idle" {
+								return "busy"
+							}
+							if x.Op == token.LAND && (l == "idle" || rr == "idle") && l != "busy" && rr != "busy" {
+								return "idle"
+							}
+							return ""
+						case *ast.UnaryExpr:
+							if x.Op == token.NOT && polarity(x.X) == "idle" {
+								return "busy"
+							}
+							return ""
+						case *ast.CallExpr:
+							t := map[string]idleTest{}
+							idleTestsIn(w, v, info, x, 0, t)
+							if len(t) > 0 {
+								return "idle"
+							}
+						}
+						return ""
+					}
+					n := 0
+					var walk func(list []ast.Stmt)
+					walk = func(list []ast.Stmt) {
+						for i, st := range list {
+							switch x := st.(type) {
+							case *ast.RangeStmt:
+								walk(x.Body.List)
+							case *ast.BlockStmt:
+								walk(x.List)
+							case *ast.IfStmt:
+								tests := map[string]idleTest{}
+								idleTestsIn(w, v, info, x.Cond, 0, tests)
+								if len(tests) == 0 {
+									walk(x.Body.List)
+									continue
+								}
+								n++
+								key := fmt.Sprintf("%s.%s:exit-flag#%d:busy(%s)#%d", v.rel, declName(fd), nLoop, strings.Join(sortedKeys(tests), ","), n)
+								switch polarity(x.Cond) {
+								case "busy":
+									r.check(clears(x.Body.List), rule, key, x.Pos(), "the drain finds the component busy and clears its exit flag")
+									walk(x.Body.List)
+								case "idle":
+									leaves := len(x.Body.List) > 0
+									if leaves {
+										b, ok := x.Body.List[len(x.Body.List)-1].(*ast.BranchStmt)
+										leaves = ok && b.Tok == token.CONTINUE
+									}
+									if leaves {
+										r.check(clears(list[i+1:]), rule, key, x.Pos(), "the drain skips an idle component and clears its exit flag for a busy one")
+									} else {
+										r.undecided(rule, key, x.Pos(), "idleness test of an unrecognised form in a drain loop with an exit flag")
+									}
+								default:
+									r.undecided(rule, key, x.Pos(), "idleness test of an unrecognised form in a drain loop with an exit flag")
+								}
+							}
+						}
+					}
+					walk(fs.Body.List)
+					return true
+				})
+			}
+		}
+	}
+}
+
+// ruleFlushEmptiesContainers (R03.26): a unit's flush empties every CONTAINER of in-flight
+// instructions the unit owns (queue, slice or map whose elements are instructions or
+// executions) — unless the unit's step re-creates the container unconditionally at its top
+// level every cycle. A wrong-path instruction left in a container is dispatched, or
+// consulted for hazards and forwarding, after the flush.
+func ruleFlushEmptiesContainers(r *Run, rule string) {
+	w := r.W
+	for _, v := range variants(w) {
+		if v.pkg == nil || !v.pipelined() {
+			continue
+		}
+		info := v.info
+		var mentions func(t types.Type, depth int) bool
+		mentions = func(t types.Type, depth int) bool {
+			if depth > 4 {
+				return false
+			}
+			switch x := t.(type) {
+			case *types.Pointer:
+				return mentions(x.Elem(), depth+1)
+			case *types.Slice:
+				return mentions(x.Elem(), depth+1)
+			case *types.Map:
+				return mentions(x.Key(), depth+1) || mentions(x.Elem(), depth+1)
+			case *types.Named:
+				if x.Obj().Pkg() != nil && x.Obj().Pkg().Path() == modPath+"/risc" && (x.Obj().Name() == "InstructionRunnerPc" || x.Obj().Name() == "ExecutionContext") {
+					return true
+				}
+				if ta := x.TypeArgs(); ta != nil {
+					for i := 0; i < ta.Len(); i++ {
+						if mentions(ta.At(i), depth+1) {
+							return true
+						}
+					}
+				}
+			}
+			return false
+		}
+		isContainer := func(t types.Type) bool {
+			if p, ok := t.(*types.Pointer); ok {
+				t = p.Elem()
+			}
+			switch t.Underlying().(type) {
+			case *types.Slice, *types.Map:
+				return true
+			}
+			return isCompType(t, "Queue")
+		}
+		seenT := map[*types.Named]bool{}
+		for _, f := range v.fields {
+			if !f.isUnit || f.unitT == nil || seenT[f.unitT] {
+				continue
+			}
+			seenT[f.unitT] = true
+			T := f.unitT
+			fl := hasDeclMethod(T, "flush")
+			st := structOf(T)
+			if fl == nil || st == nil {
+				continue
+			}
+			ffd, _ := w.FuncDecl(fl)
+			if ffd == nil {
+				continue
+			}
+			// what a body resets: fields assigned, or on which Clean/Flush/Reset is called, or clear()ed
+			resets := func(list []ast.Stmt, deep bool) map[*types.Var]bool {
+				out := map[*types.Var]bool{}
+				fieldOf := func(e ast.Expr) *types.Var {
+					if sel, ok := ast.Unparen(e).(*ast.SelectorExpr); ok {
+						if s := info.Selections[sel]; s != nil && s.Kind() == types.FieldVal {
+							if fv, ok := s.Obj().(*types.Var); ok {
+								return fv
+							}
+						}
+					}
+					return nil
+				}
+				visit := func(n ast.Node) {
+					switch x := n.(type) {
+					case *ast.AssignStmt:
+						for _, l := range x.Lhs {
+							if fv := fieldOf(l); fv != nil {
+								out[fv] = true
+							}
+						}
+					case *ast.CallExpr:
+						if id, ok := x.Fun.(*ast.Ident); ok && id.Name == "clear" && len(x.Args) == 1 {
+							if fv := fieldOf(x.Args[0]); fv != nil {
+								out[fv] = true
+							}
+						}
+						if sel, ok := x.Fun.(*ast.SelectorExpr); ok {
+							switch sel.Sel.Name {
+							case "Clean", "Flush", "Reset", "Clear":
+								if fv := fieldOf(sel.X); fv != nil {
+									out[fv] = true
+								}
+							}
+						}
+					}
+				}
+				for _, st := range list {
+					if deep {
+						ast.Inspect(st, func(n ast.Node) bool { visit(n); return true })
+					} else {
+						visit(st)
+						if es, ok := st.(*ast.ExprStmt); ok {
+							visit(es.X)
+						}
+					}
+				}
+				return out
+			}
+			byFlush := resets(ffd.Body.List, true)
+			// methods of T called by flush
+			for _, cf := range calleesIn(info, ffd.Body) {
+				if sig, ok := cf.Type().(*types.Signature); ok && sig.Recv() != nil && namedOf(sig.Recv().Type()) == T {
+					if cfd, _ := w.FuncDecl(cf); cfd != nil && cfd.Body != nil {
+						for k := range resets(cfd.Body.List, true) {
+							byFlush[k] = true
+						}
+					}
+				}
+			}
+			byStep := map[*types.Var]bool{}
+			stepFn := hasDeclMethod(T, "cycle")
+			if stepFn == nil {
+				stepFn = hasDeclMethod(T, "Cycle")
+			}
+			if stepFn != nil {
+				if sfd, _ := w.FuncDecl(stepFn); sfd != nil && sfd.Body != nil {
+					byStep = resets(sfd.Body.List, false)
+				}
+			}
+			for i := 0; i < st.NumFields(); i++ {
+				fv := st.Field(i)
+				if !isContainer(fv.Type()) || !mentions(fv.Type(), 0) {
+					continue
+				}
+				r.check(byFlush[fv] || byStep[fv], rule, fmt.Sprintf("%s.(%s).flush:empties(%s)", v.rel, T.Obj().Name(), fv.Name()), ffd.Pos(), "the flush of %s empties its container of in-flight instructions %s (or the unit's step re-creates it unconditionally every cycle)", T.Obj().Name(), fv.Name())
+			}
+		}
+	}
+}
+
+func recvNamed(info *types.Info, fd *ast.FuncDecl) *types.Named {
+	if fd.Recv == nil || len(fd.Recv.List) != 1 {
+		return nil
+	}
+	return namedOf(info.TypeOf(fd.Recv.List[0].Type))
 }
